@@ -1,3 +1,4 @@
+mod c14;
 mod c19;
 mod c20;
 mod exec;
